@@ -1,7 +1,7 @@
 """C18 — showbias reports per group the metric of exactly that group's rows, one scale (DESIGN §4 C18)."""
 from __future__ import annotations
 
-from ..evalr import Obj, Lst, FuncV
+from ..evalr import Obj, Lst, FuncV, PartialV, LambdaV
 from ..spec import CM, GROUP, SCORES, returns, raises, unmodelled_text, pc_text
 from ..terms import App, Const, Num, Sym, Tup, NAN, same, show, atoms_of, subst, to_poly, cmp0, contains
 from ..simp import mk_app
@@ -40,7 +40,7 @@ def explore(ctx, chk, group_columns, normalize, bootstrap, metric="fnr"):
     def st_bm(ev_, fi, bound):
         cap["bm"] = dict(bound)
         m = bound.get("metric")
-        if isinstance(m, FuncV):
+        if isinstance(m, (FuncV, PartialV, LambdaV)):
             smp = Obj(ctx.db.cls(GROUP), label="sample")
             kw = bound.get("kwargs")
             kws = {k.value: v for k, v in kw.items.items()} if kw is not None else {}
